@@ -11,7 +11,8 @@ from .. import kani
 
 PROP = 'C05'
 DEPS = 'wow_srp = { version = "0.7", default-features = false, features = ["srp-default-math", "tbc-header", "wrath-header"] }'
-HARNESSES = [('vanilla_step', 600), ('tbc_step', 600), ('wrath_keystream_step', 3000)]
+HARNESSES_QUICK = [('vanilla_step', 600), ('tbc_step', 600), ('wrath_keystream_step_len5', 1500)]
+HARNESSES_THOROUGH = [('vanilla_step', 600), ('tbc_step', 600), ('wrath_keystream_step', 6000)]
 
 
 def run(tier, only=None):
@@ -23,7 +24,7 @@ def run(tier, only=None):
 
     def one(h):
         return h[0], kani.run(d, 'proofs::' + h[0], timeout=h[1], playback=False)
-    hs = [h for h in HARNESSES if not only or only in h[0]]
+    hs = [h for h in (HARNESSES_QUICK if tier == 'quick' else HARNESSES_THOROUGH) if not only or only in h[0]]
     # first harness alone (builds the dependency once), the rest in parallel
     results = []
     if hs:
